@@ -59,9 +59,13 @@ pub fn exec(line: &str) -> String {
             let s = sched(); let _g = s.inner.lock().unwrap(); s.cv.notify_all();
         }));
     }
-    // a step that does not complete in this time is reported as blocked (median step: tens of microseconds)
-    let timeout = Duration::from_millis(250);
-    let wait_parked_or_done = |t: usize| -> bool {
+    // a step that does not complete in this time is reported as blocked (median step: tens of microseconds; a loaded
+    // machine or a slow disk can stretch one step to hundreds of milliseconds, so the limit is generous). Lines marked
+    // `probe=1` end in a step the model forbids: only that LAST step is expected to block and gets the short limit.
+    let long = Duration::from_secs(std::env::var("VERIF_C18_STEP_SECS").ok().and_then(|s| s.parse().ok()).unwrap_or(20));
+    let short = Duration::from_millis(250);
+    let probe = m.get("probe").map(|s| s == "1").unwrap_or(false);
+    let wait_parked_or_done = |t: usize, timeout: Duration| -> bool {
         let start = Instant::now();
         let mut g = s.inner.lock().unwrap();
         loop {
@@ -72,12 +76,13 @@ pub fn exec(line: &str) -> String {
     };
     let mut problem: Option<String> = None;
     // every thread first reaches its first yield point (or finishes, for an empty program)
-    for t in 0..n { if !wait_parked_or_done(t) { problem = Some(format!("timeout-start t{}", t)); } }
+    for t in 0..n { if !wait_parked_or_done(t, long) { problem = Some(format!("timeout-start t{}", t)); } }
     if problem.is_none() {
         for (i, &t) in schedule.iter().enumerate() {
             if done.lock().unwrap()[t] { problem = Some(format!("finished-early t{} at {}", t, i)); break; }
             { let mut g = s.inner.lock().unwrap(); g.permit = Some(t); s.cv.notify_all(); }
             // wait until the permit is consumed, then until the thread parks again or finishes
+            let timeout = if probe && i + 1 == schedule.len() { short } else { long };
             let start = Instant::now();
             loop {
                 let g = s.inner.lock().unwrap();
@@ -85,7 +90,7 @@ pub fn exec(line: &str) -> String {
                 if start.elapsed() > timeout { break; }
                 drop(s.cv.wait_timeout(g, Duration::from_millis(10)).unwrap());
             }
-            if !wait_parked_or_done(t) { problem = Some(format!("blocked t{} at step {}", t, i)); break; }
+            if !wait_parked_or_done(t, timeout) { problem = Some(format!("blocked t{} at step {}", t, i)); break; }
         }
     }
     // release everything and join
